@@ -328,6 +328,12 @@ impl<C: PixelColor> embedded_graphics::draw_target::DrawTarget for SkipT<C> {
         }
         Ok(())
     }
+    fn fill_solid(&mut self, area: &Rectangle, color: C) -> Result<(), Self::Error> {
+        for p in area.intersection(&self.window).points() {
+            self.map.insert((p.x, p.y), color);
+        }
+        Ok(())
+    }
     fn fill_contiguous<I: IntoIterator<Item = C>>(&mut self, area: &Rectangle, colors: I) -> Result<(), Self::Error> {
         let mut it = colors.into_iter();
         let vis = area.intersection(&self.window);
@@ -335,17 +341,20 @@ impl<C: PixelColor> embedded_graphics::draw_target::DrawTarget for SkipT<C> {
             return Ok(());
         }
         let w = area.size.width as usize;
-        // (by-value consumption only for streams that announce a finite length: the default `fill_solid` hands an
-        // infinite `repeat(color)` over, and a wrapper such as `take` would hide the stream's own `fold` / `for_each`)
-        let finite = it.size_hint().1.map_or(false, |u| u <= 1 << 26);
-        if self.mode != 0 && finite {
+        // (by-value consumption without a wrapper such as `take`, which would hide the stream's own `fold` /
+        // `for_each`; `fill_solid` is implemented natively below, so the infinite stream of the default
+        // `fill_solid` never arrives here; a stream that runs more than 2^20 colours beyond the area ends the
+        // run as inconclusive — a panic in the harness's own code — rather than looping)
+        if self.mode != 0 {
             let first = (vis.top_left.y - area.top_left.y) as usize * w + (vis.top_left.x - area.top_left.x) as usize;
             if first > 0 && it.nth(first - 1).is_none() {
                 return Ok(());
             }
             let (window, ax, ay) = (self.window, area.top_left.x, area.top_left.y);
             let map = &mut self.map;
+            let guard = w * area.size.height as usize + (1 << 20);
             let mut put = |idx: usize, c: C| {
+                assert!(idx <= guard, "colour stream handed to fill_contiguous is longer than the area by more than 2^20 colours");
                 let p = Point::new(ax + (idx % w) as i32, ay + (idx / w) as i32);
                 if window.contains(p) && area.contains(p) {
                     map.insert((p.x, p.y), c);
